@@ -4,11 +4,11 @@
                 (enumerated from the source, see the field comments);
     [design]  : the class of a design - which of those variables its compilation touches and where
                 (if anywhere) it is rejected;
-    [compile_gen fx] : one call of std.VhdlCompiler.to_string, stage by stage, performing exactly the
+    [compile_gen fx fi] : one call of std.VhdlCompiler.to_string, stage by stage, performing exactly the
                 set / restore operations of the code on normal and on exceptional exit.
-                [fx = false] ("coded"): as the code is written - where there is no try/finally the state leaks;
-                [fx = true]  ("fixed"): the same stages with the try/finally discipline
-                (the proposed fixes /verif/seeded/_proposed_fixes/C11_*.diff).
+                [fx]: the exits repaired by the five fix: commits restore their state (false = the tree before them);
+                [fi]: the IR scratch variables (returned_blocks, _current_frame) are restored as well (not in /repo).
+                [compile] = [compile_gen true false] is the CURRENT tree.
 
     Tied to /repo by harness/c11.py: histories over a pool of designs run in ONE interpreter, the real globals
     are read after every compilation and compared with [run] inside Coq ([hist_ok]). *)
@@ -218,26 +218,25 @@ Definition stale_promote (p : pfx) : pfx :=
   match p_pe p with PCur => mkPfx (p_scope p) PStale (p_pt p) | _ => p end.
 
 (** IR generation of the contexts (runs after ConvertPythonInstance.__exit__) *)
-Definition ir_stage (fx : bool) (d : design) (names : list pstr) (g : gstate) : gstate * outcome :=
+Definition ir_stage (fx fi : bool) (d : design) (names : list pstr) (g : gstate) : gstate * outcome :=
+  (* l.146-155 _current_frame and l.330-341 returned_blocks are restored on the normal path only *)
+  let scratch (in_apply : bool) (g : gstate) : gstate :=
+    if fi then g else set_fr (g_fr g || in_apply) (set_rb (g_rb g || (d_in_call d && in_apply)) g) in
   if d_coro d && g_sm g then
     (* StatemachineContext.enter l.1193: "error nested StatemachineContext", raised inside apply / Call *)
-    ((if fx then g else set_fr true (set_rb (g_rb g || d_in_call d) g)), Crashed SIr)
+    (scratch true g, Crashed SIr)
   else
     match d_verdict d with
     | Rej SIrSm =>
-        (* _generate_ir.py l.557-561: enter .. finish without try/finally;
-           l.146-155 _current_frame and l.330-341 returned_blocks restored on the normal path only *)
-        ((if fx then g else set_sm true (set_fr true (set_rb (g_rb g || d_in_call d) g))), Rejected SIrSm)
-    | Rej SIr =>
-        ((if fx then g
-          else set_fr (g_fr g || d_in_apply d) (set_rb (g_rb g || (d_in_call d && d_in_apply d)) g)),
-         Rejected SIr)
+        (* _generate_ir.py l.557-561: enter .. finish; before 73c9e08 without try/finally *)
+        ((if fx then scratch true g else set_sm true (scratch true g)), Rejected SIrSm)
+    | Rej SIr => (scratch (d_in_apply d) g, Rejected SIr)
     | Rej SAnalysis => (g, Rejected SAnalysis)
     | Rej SBackend => (g, Rejected SBackend)
     | _ => (g, Accepted names)
     end.
 
-Definition compile_gen (fx : bool) (d : design) (g : gstate) : gstate * outcome :=
+Definition compile_gen (fx fi : bool) (d : design) (g : gstate) : gstate * outcome :=
   if g_act g then (g, Crashed SArch)      (* ConvertPythonInstance.__enter__ l.2302; restored by `with` *)
   else
   let g := set_cache (S (g_cache g)) g in
@@ -273,26 +272,35 @@ Definition compile_gen (fx : bool) (d : design) (g : gstate) : gstate * outcome 
                    (if fx then g else set_eh (g_eh g + d_eh d) (set_bs (g_bs g + d_depth d) g))) in
     (g1, if crashed then Crashed SPrep else Rejected SPrep)
   else
-    ir_stage fx d names (set_cur (cur_after fx d false false (g_cur g)) (set_pfx (demote popped) g))
+    ir_stage fx fi d names (set_cur (cur_after fx d false false (g_cur g)) (set_pfx (demote popped) g))
   end
   end.
 
-Definition compile : design -> gstate -> gstate * outcome := compile_gen false.
-Definition compile_fixed : design -> gstate -> gstate * outcome := compile_gen true.
+(** the CURRENT tree: the five fix: commits 73c9e08 72ebcaa 215d68c 5bdcba1 36732b7 restore the state on the
+    exceptional exits; IrGenerator.returned_blocks and ir.Statement._current_frame still leak (they are written
+    before they are read in every compilation: [scratch_transparent] in HistProofs.v) *)
+Definition compile : design -> gstate -> gstate * outcome := compile_gen true false.
+(** the tree before those commits (kept for the regression witnesses) and a tree with every exit restored *)
+Definition compile_coded : design -> gstate -> gstate * outcome := compile_gen false false.
+Definition compile_fixed : design -> gstate -> gstate * outcome := compile_gen true true.
 
 Definition step (c : design -> gstate -> gstate * outcome) (g : gstate) (d : design) : gstate := fst (c d g).
 Definition run (c : design -> gstate -> gstate * outcome) (h : list design) : gstate := fold_left (step c) h init.
 
-(** every scratch variable is back at its import-time value (prefix table and caches may have content, the
-    table is not attached to a live object) *)
-Definition cleanb (g : gstate) : bool :=
+(** the outcome-relevant variables are back at their import-time value: everything except the prefix table and the
+    caches (the table is not attached to a live object) and except returned_blocks / _current_frame, which no
+    compilation reads before writing them *)
+Definition rcleanb (g : gstate) : bool :=
   negb (g_sm g) && Nat.eqb (g_bs g) 0
   && match p_scope (g_pfx g) with [] => true | _ => false end
   && match p_pe (g_pfx g) with PNone | POther => true | _ => false end
-  && negb (g_rb g) && negb (g_br g) && negb (g_co g) && Nat.eqb (g_rs g) 0 && negb (g_pf g)
-  && Nat.eqb (g_inl g) 0 && negb (g_act g) && negb (g_cur g) && negb (g_fr g) && Nat.eqb (g_eh g) 0
+  && negb (g_br g) && negb (g_co g) && Nat.eqb (g_rs g) 0 && negb (g_pf g)
+  && Nat.eqb (g_inl g) 0 && negb (g_act g) && negb (g_cur g) && Nat.eqb (g_eh g) 0
   && match g_stale g with [] => true | _ => false end
   && match g_tt g with [] => true | _ => false end.
+Definition rclean (g : gstate) : Prop := rcleanb g = true.
+(** every scratch variable, including the two harmless ones *)
+Definition cleanb (g : gstate) : bool := rcleanb g && negb (g_rb g) && negb (g_fr g).
 Definition clean (g : gstate) : Prop := cleanb g = true.
 
 (** * correspondence with the real compiler (evaluated by harness/c11.py) *)
